@@ -925,6 +925,6 @@ func c09fp(name string, x any) string {
 
 func init() {
 	Register("C09",
-		"receiver and argument are built through a drawn history (constructor NewList/NewListFrom/NewListOf/Add-by-Add or, in one case of five, a typed Go slice of ints/strings/floats/bools - half of those lists are then left untouched; 0-129 further Adds crossing capacity boundaries, Inserts, then 0-3 Pops and 0-2 Deletes so that length/capacity relations vary; the argument may be empty), then 1-2 derivations from the same receiver drawn from the full table (Concat incl. self, SubList, 6 Filter*, 9 Map* incl. MapAsync, Slice and the 6 typed slices, 4 Reduce*, String, FormatString, Equals, Contains, IndexOf; for objects Merge incl. self, Pluck, Keys, Values, Dict, 9 Map*, String, FormatString, Equals, Contains), then 1-8 top-level mutations (Add, Insert, Replace, Delete, Pop, Clear, Sort in domain, Reverse, Set, Unset; element assignment / append within capacity / delete for Go slices and maps) on any participant; one derivation in five has a callback that panics on its 1st-4th invocation (the harness recovers, as a caller would), after which inputs must be unchanged and every later mutation must still work. Oracle: top-level slot snapshots (scalar value or identity of the nested container per slot) of receiver and argument are unchanged by the derivation, and after every mutation every other participant's snapshot is unchanged; snapshots own their string bytes, and every later derivation (the second one, and the repeated ones at the end, also from an unrelated container) must leave every earlier result as it was. Non-trivial = at least one mutation of the receiver or a result after a derivation from a receiver with Pop/Delete or growth history or typed-slice origin, or with an empty argument, or in object mode. Distinct = distinct FNV-64a hash of the case JSON. One list receiver in eight is a user-defined type embedding a List (1-3 levels, registered with Init; ConcatSelf is then Concat with the plain argument, the only argument kind the pinned Concat accepts); one in thirty has 257-1025 further elements, so that typed Map*/Filter* results have 257-1025 elements.",
+		"receiver and argument are built through a drawn history (constructor NewList/NewListFrom/NewListOf/Add-by-Add or, in one case of five, a typed Go slice of ints/strings/floats/bools - half of those lists are then left untouched; 0-129 further Adds crossing capacity boundaries, Inserts, then 0-3 Pops and 0-2 Deletes so that length/capacity relations vary; the argument may be empty), then 1-2 derivations from the same receiver drawn from the full table (Concat incl. self, SubList, 6 Filter*, 9 Map* incl. MapAsync, Slice and the 6 typed slices, 4 Reduce*, String, FormatString, Equals, Contains, IndexOf; for objects Merge incl. self, Pluck, Keys, Values, Dict, 9 Map*, String, FormatString, Equals, Contains), then 1-8 top-level mutations (Add, Insert, Replace, Delete, Pop, Clear, Sort in domain, Reverse, Set, Unset; element assignment / append within capacity / delete for Go slices and maps) on any participant; one derivation in five has a callback that panics on its 1st-4th invocation (the harness recovers, as a caller would), after which inputs must be unchanged and every later mutation must still work. Oracle: top-level slot snapshots (scalar value or identity of the nested container per slot) of receiver and argument are unchanged by the derivation, and after every mutation every other participant's snapshot is unchanged; snapshots own their string bytes, and every later derivation (the second one, and the repeated ones at the end, also from an unrelated container) must leave every earlier result as it was. Non-trivial = at least one mutation of the receiver or a result after a derivation from a receiver with Pop/Delete or growth history or typed-slice origin, or with an empty argument, or in object mode. Distinct = distinct FNV-64a hash of the case JSON. One list receiver in eight is a user-defined type embedding a List (1-3 levels, registered with Init; ConcatSelf is then Concat with the plain argument, the only argument kind the pinned Concat accepts); one in thirty has 257-1025 further elements, so that typed Map*/Filter* results have 257-1025 elements. A receiver whose first element is nil / bool / a container first gets a Sort that is refused (the caller recovers; the list must be unchanged).",
 		GenC09, CheckC09)
 }
